@@ -45,6 +45,8 @@ pub struct WorldCfg {
     pub non_utf8: bool,
     pub signed_wide: bool,
     pub projected_bias: bool,
+    /// widths that RFC reduced-size encoding allows but the library does not decode (5, 6, 7 ...)
+    pub odd_widths: bool,
     pub max_records: usize,
     pub max_sets: usize,
     /// V9 header count = number of flowsets (self-delimiting form) instead of records
@@ -227,6 +229,9 @@ impl<'a> World<'a> {
         let dt = dt_of(kind, typ);
         if dt == Dt::Signed && !cfg.signed_wide {
             return FSpec { typ, len: *self.rng.pick(&[1u16, 2, 3, 4]), ent: None };
+        }
+        if cfg.odd_widths && matches!(dt, Dt::Unsigned | Dt::DurMs | Dt::DurS | Dt::Ip4 | Dt::Mac | Dt::F64) && self.rng.chance(1, 6) {
+            return FSpec { typ, len: *self.rng.pick(&[5u16, 6, 7, 9, 12, 2, 3]), ent: None };
         }
         let len = pick_len(&mut self.rng, dt, cfg.varlen && kind == ExKind::Ipfix, cfg.zero_len && kind == ExKind::Ipfix);
         FSpec { typ, len, ent: None }
